@@ -7,9 +7,10 @@ CONSTANTS
     BgAllFiles = TRUE
     WaitHonoursTimeout = TRUE
     ThresholdOnEffective = TRUE
+    FailOnCacheError = TRUE
     AllowReg = TRUE
 SPECIFICATION TraceSpec
 CONSTRAINT HighWater
-INVARIANTS AfterPrefetchPrioritizedReadsAreLocal NoPrefetchLandmarkNoTraffic ConfiguredSizeCapped PrefetchTrafficConfined AfterBackgroundFetchOfflineReadable WaiterClosedAtEnd WaitNilOnlyIfEndedOrAsync WaitResult
+INVARIANTS AfterPrefetchPrioritizedReadsAreLocal NoPrefetchLandmarkNoTraffic ConfiguredSizeCapped PrefetchTrafficConfined AfterBackgroundFetchOfflineReadable SuccessMeansCached WaiterClosedAtEnd WaitNilOnlyIfEndedOrAsync WaitResult
 POSTCONDITION TraceAccepted
 CHECK_DEADLOCK FALSE
